@@ -12,4 +12,4 @@ HOOK_COMMITS = ["c2e274d"]
 
 # Monitors that are finished (silent on the repaired tree over seeds 1..5, sensitivity validated) and
 # therefore claimed in MANIFEST.json.  Fragments not listed here are still under construction.
-READY = ["C01", "C02", "C03", "C04", "C05", "C06", "C07", "C08", "C09", "C12", "C13", "C14", "C15", "C16", "C17", "C18", "C19", "C20"]
+READY = ["C01", "C02", "C03", "C04", "C05", "C06", "C07", "C08", "C09", "C10", "C11", "C12", "C13", "C14", "C15", "C16", "C17", "C18", "C19", "C20"]
